@@ -151,6 +151,11 @@ class VOptNum(V):
     def __init__(self, e, none):
         self.e, self.none = e, none
 
+    is_int = False
+
+    def real(self):          # the number itself (callers that may see None have checked or carry an obligation)
+        return self.e
+
 
 class VNone(V):
     pass
@@ -910,6 +915,10 @@ class Engine:
         return [(st, "next", None)]
 
     def ev_JoinedStr(self, n, st):
+        if getattr(self, "fstring_model", None) is not None:
+            r_ = self.fstring_model(self, st, n)
+            if r_ is not None:
+                return r_
         return VStr("<f-string>")
 
     def ev_ListComp(self, n, st):
@@ -1119,6 +1128,8 @@ class Engine:
     def truth(self, v):
         if isinstance(v, VBool):
             return v.e
+        if isinstance(v, VOptNum):
+            return z3.And(z3.Not(v.none), v.e != 0)
         if isinstance(v, VStr):
             return z3.BoolVal(bool(v.s))
         if isinstance(v, VDict):
@@ -1189,12 +1200,12 @@ class Engine:
         return VSeq(FnArr(lambda k_: z3.If(k_ < a.len, a.arr[k_], b.arr[k_ - a.len])), a.len + b.len, pylist=True)
 
     def binop(self, op, a, b, n=None):
+        if isinstance(op, ast.Mod) and getattr(self, "mod_model", None) is not None:
+            return self.mod_model(self, a, b)
         if isinstance(a, VStr) and isinstance(b, VStr) and isinstance(op, ast.Add) and not (a.s.startswith("<") or b.s.startswith("<")):
             return VStr(a.s + b.s)               # concatenation of two concrete strings
         if isinstance(a, VStr) and isinstance(op, (ast.Mod, ast.Add)):
             return VStr("<formatted>")
-        if isinstance(op, ast.Mod) and getattr(self, "mod_model", None) is not None:
-            return self.mod_model(self, a, b)
         if isinstance(op, ast.Add) and isinstance(a, VTuple) and isinstance(b, VTuple):
             return VTuple(a.items + b.items)
         is_empty_list = lambda v_: isinstance(v_, VSeq) and z3.is_int_value(z3.simplify(v_.len)) and z3.simplify(v_.len).as_long() == 0
@@ -1257,6 +1268,14 @@ class Engine:
                 continue
             if isinstance(op, (ast.In, ast.NotIn)) and isinstance(right, VTuple) and isinstance(left, VStr) and all(isinstance(q_, VStr) for q_ in right.items):
                 c = z3.BoolVal(any(q_.s == left.s for q_ in right.items))
+                conj.append(c if isinstance(op, ast.In) else z3.Not(c))
+                left = right
+                continue
+            if isinstance(op, (ast.In, ast.NotIn)) and isinstance(right, VTuple) and isinstance(left, (VOptNum, VNum)) and all(isinstance(q_, (VNum, VNone)) for q_ in right.items) and any(isinstance(q_, VNone) for q_ in right.items):
+                is_none = left.none if isinstance(left, VOptNum) else z3.BoolVal(False)
+                val = left.e if isinstance(left, VOptNum) else left.real()
+                alts = [z3.And(z3.Not(is_none), val == q_.real()) for q_ in right.items if isinstance(q_, VNum)]
+                c = z3.Or([is_none] + alts)         # x in (None, 0, ...): None, or one of the numbers
                 conj.append(c if isinstance(op, ast.In) else z3.Not(c))
                 left = right
                 continue
@@ -1458,6 +1477,10 @@ class Engine:
         raise Unsupported("subscript " + ast.unparse(n))
 
     def ev_Call(self, n, st):
+        if getattr(self, "call_hook", None) is not None:        # contract-module model of one specific call form (listed as trusted)
+            r_ = self.call_hook(self, st, n)
+            if r_ is not None:
+                return r_
         if isinstance(n.func, ast.Attribute) and n.func.attr == "format" and isinstance(n.func.value, (ast.Constant, ast.JoinedStr)):
             return VStr("<formatted>")       # message text: arguments are not evaluated (dropped, see DESIGN 2.1)
         if isinstance(n.func, ast.Name) and n.func.id == "type" and n.func.id not in st.locals and len(n.args) == 1:
